@@ -1,5 +1,7 @@
 """C01  Route resolution equals the plain rule-by-rule semantics."""
 import itertools
+import re
+import sys
 
 from hypothesis import strategies as st
 
@@ -11,10 +13,10 @@ ID = 'C01'
 LEVEL = 'exploration'
 RULE = ('case = 1-6 rule ASTs (literal / plain-wildcard / int / float / re / path segments over a colliding alphabet a, b, ab, abc, /, digits, -, ., '
         'e-acute, CJK; later rules derived from earlier ones: extend, truncate, literal<->wildcard, rename, refilter, split a literal, same pattern with '
-        'other names and another method or the same method with overwrite=True; some rules are registered and removed again before the requests; a rule may lose its method again through the Route object (it stays, answers 405 and still beats a sibling wildcard rule) or get a further method attached through the Route object), each rendered into a generated rule-syntax flavour (:name, <name>, {name}, <name.f(args)>, <name:f(args)>, '
+        'other names and another method or the same method with overwrite=True; some rules are registered and removed again before the requests; a rule may lose its method again through the Route object (it stays, answers 405 and still beats a sibling wildcard rule) or get a further method attached through the Route object; a registration may name a LIST of methods (any spelling, repeats) and is then refused as a whole when one of them is taken: refused registrations count for nothing, requests are made with every method any registration listed, and the refusals are replayed on the application too), each rendered into a generated rule-syntax flavour (:name, <name>, {name}, <name.f(args)>, <name:f(args)>, '
         '<name:f:args>, <f(args)>, <:f(args)>, {:f} ...) and registered; 8 request paths per set: instantiations of the accepted rules with values from '
         'per-filter pools (12, -3, 007, 1.5, tom, a/b, empty ...), one-character edits (insert / delete / replace incl. CR, LF, //), extra slashes, raw '
-        'strings. Oracle = independent reference matcher (left-to-right, no backtracking inside a rule; priority: literal beats wildcard at the first '
+        'strings, a digit run blown up to thousands of digits around and beyond sys.get_int_max_str_digits() (there a ValueError from resolve / a 500 that reached no handler is counted, not judged; a handler reached with an int / float wildcard that is not an int / a float is a violation). Oracle = independent reference matcher (left-to-right, no backtracking inside a rule; priority: literal beats wildcard at the first '
         'difference): RadiRouter.resolve(path, [M]) selects the same route / 404 / 405, kwargs == named wildcards of the rule that registered method '
         'M, converted by the filter; the same through Ombott.__call__ (handler kwargs, status). Cases whose verdict depends on whether a wildcard may '
         'bind the empty string are counted, not judged. Non-trivial = >= 2 accepted rules and the path matches >= 1; distinct by (rules, path).')
@@ -24,6 +26,35 @@ ASSUMPTIONS = ['reference matcher vlib/rules.py is trusted (about 60 lines, no s
                'rules with a literal CR, a trailing "*", a leading "//", a path wildcard directly followed by a wildcard, or duplicate names are outside the domain']
 
 METHODS = ['GET', 'POST', 'PUT', 'DELETE', 'PATCH']
+INT_LIMIT = getattr(sys, 'get_int_max_str_digits', lambda: 0)()          # int() refuses decimal text with more digits (0 = no limit)
+_L = INT_LIMIT or 4300
+LONG_DIGITS = ['9' * (_L - 1), '9' * _L, '9' * (_L + 1), '1' + '0' * (_L + 700), '0' * (_L + 1) + '7']
+
+
+def methods_of(reg):
+    """(argument handed to add() / route(), the distinct methods it names in upper case)"""
+    if reg.get('methods'):
+        return list(reg['methods']), list(dict.fromkeys(m.upper() for m in reg['methods']))
+    return reg['method'], [reg['method'].upper()]
+
+
+def beyond_int(asts, path):
+    """the path holds a digit run int() refuses and some rule has an int wildcard: conversion cannot succeed there. What the router does instead of
+    converting (on the pinned tree the ValueError of int() escapes from resolve / the request ends in 500) is not judged; reaching a handler is."""
+    if not INT_LIMIT or not re.search(r'\d{%d}' % (INT_LIMIT + 1), path):
+        return False
+    return any(s[0] == 'w' and s[2] == 'int' for a in asts for s in a)
+
+
+def all_asts(case):
+    """every rule the case hands to the router at some time (registered, refused, removed again, hook prefixes)"""
+    return [r['ast'] for r in case['regs']] + [h['ast'] for h in case.get('hooks') or ()]
+
+
+def unconverted(ast, params):
+    """names of the int / float wildcards of the rule whose value in the handler's kwargs is not an int / a float"""
+    want = {s[1]: {'int': int, 'float': float}[s[2]] for s in ast if s[0] == 'w' and s[1] and s[2] in ('int', 'float')}
+    return [k for k, t in want.items() if k in params and type(params[k]) is not t]
 
 
 @st.composite
@@ -41,12 +72,18 @@ def case_st(draw):
                      'remove_after': draw(st.integers(0, 5)) == 0,         # registered, then removed again: the router must answer as if it had never been there
                      'strip': draw(st.integers(0, 7)) == 0,                # the method is taken away again through the Route object: the rule stays and still selects its paths (405)
                      'attach': draw(st.sampled_from([None, None, None, None, 'PATCH', 'PUT']))})   # a further method attached through the Route object
+        if draw(st.integers(0, 3)) == 0:
+            # one registration for a LIST of methods (any spelling, a method may occur twice): refused as a whole when one of them is taken on the pattern
+            regs[-1]['methods'] = draw(st.lists(st.sampled_from(METHODS + ['get', 'Post', 'put']), min_size=2, max_size=3))
     paths = []
     for _ in range(8):
         if draw(st.integers(0, 9)) == 0:
             paths.append('/' + draw(st.text(st.sampled_from(list('ab/1-.té\r')), max_size=8)))
         else:
             paths.append(draw(R.path_for(draw(st.sampled_from(asts)))))
+            if draw(st.integers(0, 31)) == 0:
+                # a digit run of the path blown up to thousands of digits (around / beyond what int() takes)
+                paths[-1] = re.sub(r'\d+', draw(st.sampled_from(LONG_DIGITS)), paths[-1], count=1)
     hooks = []
     for _ in range(draw(st.sampled_from([0, 0, 0, 1, 2]))):
         src = draw(st.sampled_from(asts))
@@ -84,26 +121,28 @@ def register(case):
         texts[i] = text
         if text is None or not R.legal(reg['ast']):
             continue
+        marg, mlist = methods_of(reg)
         try:
-            router.add(text, reg['method'], mk(i), overwrite=bool(reg.get('overwrite')))
-        except Exception:  # rejected registration (filter conflict at one tree position, method taken, ...)
+            router.add(text, marg, mk(i), overwrite=bool(reg.get('overwrite')))
+        except Exception:  # rejected registration (filter conflict at one tree position, method taken, ...): counts for nothing, whatever it listed
+            events.append(('refused', i, R.merge(reg['ast']), marg))
             continue
         ast = R.merge(reg['ast'])
         key = R.pattern_key(ast)
         first_on.setdefault(key, ast)
         # an accepted overwrite replaces the earlier registration of the same (pattern, method)
-        accepted = [(j, a, m) for (j, a, m) in accepted if not (m == reg['method'] and R.pattern_key(a) == key)]
-        accepted.append((i, ast, reg['method']))
-        events.append(('add', i, ast, reg['method']))
+        accepted = [(j, a, m) for (j, a, m) in accepted if not (m in mlist and R.pattern_key(a) == key)]
+        accepted += [(i, ast, m) for m in mlist]
+        events.append(('add', i, ast, marg))
         if reg.get('attach') and not any(m == reg['attach'] and R.pattern_key(a) == key for _, a, m in accepted):
             router[{text}].add_method(reg['attach'], mk(i + 1000))
             texts[i + 1000] = '%s (+%s attached through the Route object)' % (text, reg['attach'])
             accepted.append((i + 1000, first_on[key], reg['attach']))
             events.append(('attach', i, first_on[key], reg['attach']))
         if reg.get('strip'):
-            router[{text}].remove_method(reg['method'])
+            router[{text}].remove_method(mlist)
             accepted = [(j, a, (None if j == i else m)) for (j, a, m) in accepted]
-            events.append(('strip', i, ast, reg['method']))
+            events.append(('strip', i, ast, mlist))
     # rules flagged remove_after are taken out again (by rule text): only the survivors count
     for i, reg in enumerate(case['regs']):
         if reg.get('remove_after') and any(j == i for j, _, _ in accepted):
@@ -136,8 +175,21 @@ def expect(accepted, path):
 def check_case(ctx, case):
     router, accepted, texts = register(case)
     events = _LAST['events']
-    ctx.count('rules_accepted', len(accepted))
-    ctx.count('rules_rejected', max(0, len(case['regs']) - len(accepted)))
+    ctx.count('rules_accepted', len({j for j, _, _ in accepted}))
+    refused = [e for e in events if e[0] == 'refused']
+    ctx.count('rules_rejected', len(refused))
+    listed = set()                  # every method any registration named, the refused ones included
+    for reg in case['regs']:
+        listed.update(methods_of(reg)[1])
+        if reg.get('methods'):
+            ctx.count('registration_with_method_list')
+    for e in refused:
+        if isinstance(e[3], list):
+            ctx.count('refused_registration_with_method_list')
+            taken = {m for _, a, m in accepted if R.pattern_key(a) == R.pattern_key(e[2])}
+            ms = [m.upper() for m in e[3]]
+            if any(m not in taken for m in ms):
+                ctx.count('refused_method_list_naming_a_free_method')
     if not accepted:
         ctx.count('no_rule_accepted')
         return
@@ -150,11 +202,23 @@ def check_case(ctx, case):
             continue
         sp = path.strip('/')
         nmatch = sum(1 for a in asts if R.match(a, sp, False) is not None)
-        for method in sorted({m for _, _, m in accepted if m} | {'GET'}):
+        zone = beyond_int(all_asts(case), path)
+        if zone:
+            ctx.count('path_with_digit_run_beyond_int_limit')
+        for method in sorted({m for _, _, m in accepted if m} | {'GET'} | listed):
             try:
                 end_point, err = router.resolve(path, [method])
             except Exception as e:
-                raise CheckFailure(f'resolve({path!r}, {method}) raised {fmt_exc(e)} on rules {desc}')
+                if zone and isinstance(e, ValueError):
+                    ctx.count('int_conversion_failed_no_handler_reached(unjudged)')
+                    continue
+                raise CheckFailure(f'resolve({_cut(path)!r}, {method}) raised {fmt_exc(e)} on rules {desc}')
+            if end_point is not None:
+                got_ast = {j: a for j, a, _ in accepted}.get(end_point[0].handler()[0])
+                bad = unconverted(got_ast, end_point[1]) if got_ast else []
+                if bad:
+                    raise CheckFailure(f'rules {desc}: {_cut(path)!r} {method}: resolve hands the handler of {texts[end_point[0].handler()[0]]!r} the wildcard(s) {bad} as '
+                                       f'{[type(end_point[1][k]).__name__ for k in bad]}, not converted by their filter')
             if exp['kind'] == 404:
                 if end_point is not None or not err or err[0] != 404:
                     raise CheckFailure(f'rules {desc}: no rule matches {path!r} but resolve answered {_show(end_point, err)}')
@@ -195,6 +259,10 @@ def check_case(ctx, case):
     _wsgi_part(ctx, case, accepted, texts, events)
 
 
+def _cut(path):
+    return path if len(path) < 200 else '%s...(%d characters)...%s' % (path[:60], len(path), path[-40:])
+
+
 def _show(end_point, err):
     if end_point is not None:
         meth, params, _ = end_point
@@ -209,17 +277,26 @@ def _wsgi_part(ctx, case, accepted, texts, events):
     box = {}
     ok = []
     # the same history on the application, with requests served after EVERY step (what was answered before a registration must not stick)
+    also = []                       # methods named by refused registrations so far: asked after every step
     for n, (ev, i, ast, m) in enumerate(events):
-        if ev == 'add':
+        if ev in ('add', 'refused'):
             def h(_i=i, **kw):
                 box['got'] = (_i, kw)
                 return 'h'
+            mlist = methods_of(case['regs'][i])[1]
             try:
                 app.route(texts[i], method=m, callback=h, overwrite=bool(case['regs'][i].get('overwrite')))
             except Exception:
-                raise CheckFailure(f'rule {texts[i]!r} was accepted by RadiRouter.add but rejected by Ombott.route on an identical history')
-            ok = [(j, a, mm) for (j, a, mm) in ok if not (mm == m and R.pattern_key(a) == R.pattern_key(ast))]
-            ok.append((i, ast, m))
+                if ev == 'add':
+                    raise CheckFailure(f'rule {texts[i]!r} was accepted by RadiRouter.add but rejected by Ombott.route on an identical history')
+                # the refused registration replayed on the application: refused there too, and it must not count for anything afterwards
+                also += [x for x in mlist if x not in also]
+                ctx.count('refused_registration_replayed_on_application')
+            else:
+                if ev == 'refused':
+                    raise CheckFailure(f'rule {texts[i]!r} (methods {m!r}) was refused by RadiRouter.add but accepted by Ombott.route on an identical history')
+                ok = [(j, a, mm) for (j, a, mm) in ok if not (mm in mlist and R.pattern_key(a) == R.pattern_key(ast))]
+                ok += [(i, ast, mm) for mm in mlist]
         elif ev == 'hook':
             try:
                 if m:
@@ -244,10 +321,10 @@ def _wsgi_part(ctx, case, accepted, texts, events):
                 raise CheckFailure(f'remove_route({texts[i]!r}) raised {fmt_exc(e)}')
             ok = [(j, a, mm) for (j, a, mm) in ok if R.pattern_key(a) != ast]
         last = n == len(events) - 1
-        _serve(ctx, app, box, ok, texts, case['paths'] if last else case['paths'][:4], every_method=last)
+        _serve(ctx, app, box, ok, texts, case['paths'] if last else case['paths'][:4], every_method=last, also=also, every_ast=all_asts(case))
 
 
-def _serve(ctx, app, box, ok, texts, paths, every_method):
+def _serve(ctx, app, box, ok, texts, paths, every_method, also=(), every_ast=()):
     for path in paths:
         try:
             path.encode('utf8')
@@ -257,12 +334,23 @@ def _serve(ctx, app, box, ok, texts, paths, every_method):
         if exp is None:
             continue
         verbs = sorted({m for _, _, m in ok if m}) or ['GET']
-        for method in (verbs if every_method else verbs[:1]):
+        verbs = verbs if every_method else verbs[:1]
+        zone = beyond_int(every_ast, path)
+        for method in verbs + [m for m in also if m not in verbs]:
             box.clear()
             r = call_app(app, make_environ(method, path))
             if r.escaped is not None:
-                raise CheckFailure(f'{method} {path!r}: exception escaped: {fmt_exc(r.escaped)}')
+                raise CheckFailure(f'{method} {_cut(path)!r}: exception escaped: {fmt_exc(r.escaped)}')
             desc = [(texts[i], m) for i, _, m in ok]
+            if 'got' in box:
+                got_ast = {j: a for j, a, _ in ok}.get(box['got'][0])
+                bad = unconverted(got_ast, box['got'][1]) if got_ast else []
+                if bad:
+                    raise CheckFailure(f'rules {desc} (registered so far): {method} {_cut(path)!r}: the handler of {texts[box["got"][0]]!r} was called with the wildcard(s) {bad} as '
+                                       f'{[type(box["got"][1][k]).__name__ for k in bad]}, not converted by their filter')
+            elif zone and r.code == 500:
+                ctx.count('int_conversion_failed_500_no_handler_reached(unjudged)')
+                continue
             if exp['kind'] == 404:
                 want_code = 404
             else:
@@ -368,6 +456,40 @@ def fixed_grid(ctx):
                     regs = [{'ast': R._fix(a), 'choice': [2], 'method': m, 'overwrite': f, 'remove_after': rm == i} for i, (a, m, f) in enumerate(zip(rs, ms, flags))]
                     ctx.guarded(check_case, {'regs': regs, 'spell': spell, 'paths': ow_paths})
     ctx.count('fixed_grid_overwrite_sets', len(ow_sets))
+    # one registration for a LIST of methods, refused as a whole because one of them is taken on the pattern (a free method listed before the taken one, after it,
+    # the same method in two spellings), followed by requests with every listed method and by further registrations of the methods that stayed free
+    ml_sets = [
+        ([[L('/item/'), W('id', 'int')], [L('/item/'), W('num', 'int')]], ['POST', ['PUT', 'POST']]),
+        ([[L('/item/'), W('id', 'int')], [L('/item/'), W('num', 'int')], [L('/item/'), W('k', 'int')]], ['POST', ['PUT', 'POST'], 'PUT']),
+        ([[L('/u/'), W('a'), L('/'), W('b')], [L('/u/'), W('x'), L('/'), W('y')]], ['GET', ['DELETE', 'PATCH', 'GET']]),
+        ([[L('/u/'), W('a'), L('/'), W('b')], [L('/u/'), W('x'), L('/'), W('y')]], ['POST', ['POST', 'DELETE']]),
+        ([[L('/u/'), W('a'), L('/'), W('b')], [L('/u/'), W('x'), L('/'), W('y')]], ['POST', ['PUT', 'DELETE']]),
+        ([[L('/fresh/'), W('name')], [L('/fresh/'), W('other')]], [['GET', 'get'], 'GET']),
+        ([[L('/fresh/'), W('name')], [L('/fresh/'), W('other')]], [['GET', 'get'], ['put', 'PUT', 'Get']]),
+        ([[L('/fresh/'), W('name')], [L('/fresh/'), W('other')], [L('/fresh/'), W('third')]], ['get', ['Put', 'GET'], ['PUT', 'put']]),
+        ([[L('/only')], [L('/only')], [L('/'), W('w')]], ['GET', ['PUT', 'GET'], 'GET']),
+        ([[L('/a/'), W('x')], [L('/a/b')], [L('/a/b')], [L('/a/b')]], ['GET', 'POST', ['GET', 'POST'], 'GET']),
+    ]
+    ml_paths = ['/item/7', '/item/x', '/u/1/2', '/fresh/abc', '/only', '/a/b', '/a/c', '/item/7/', '/fresh/']
+    for rs, ms in ml_sets:
+        for ow in (False, True):
+            for rm in (None, 0):
+                for spell in (0, 1):
+                    regs = []
+                    for i, (a, m) in enumerate(zip(rs, ms)):
+                        regs.append({'ast': R._fix(a), 'choice': [2], 'method': m if isinstance(m, str) else 'GET', 'overwrite': ow and isinstance(m, list), 'remove_after': rm == i})
+                        if isinstance(m, list):
+                            regs[-1]['methods'] = m
+                    ctx.guarded(check_case, {'regs': regs, 'spell': spell, 'paths': ml_paths})
+    ctx.count('fixed_grid_method_list_sets', len(ml_sets))
+    # int / float wildcards offered thousands of digits, around and beyond what int() converts; alone, with a sibling rule that could take the text unconverted, in the middle of a rule
+    for rs in ([[L('/n/'), W('x', 'int'), L('/tail')]], [[L('/item/'), W('id', 'int')], [L('/item/'), W('name')]], [[L('/item/'), W('id', 'int')], [L('/item/'), W('name', 're', '[0-9a-z]+')]],
+               [[L('/n/'), W('a', 'int'), L('/'), W('b', 'float'), L('/'), W('c')]], [[L('/f/'), W('v', 'float')], [L('/n/'), W('x', 'int'), L('/tail')]], [[L('/n/'), W(None, 'int'), L('/'), W('t')]]):
+        ps = []
+        for d in LONG_DIGITS[1:4]:
+            ps += ['/n/%s/tail' % d, '/n/-%s/tail' % d, '/item/' + d, '/item/-' + d, '/n/%s/1.5/x' % d, '/n/7/%s/x' % d, '/n/7/1.5/' + d, '/f/' + d, '/f/%s.%s' % (d, d), '/n/%s/t' % d]
+        ctx.guarded(check_case, {'regs': [{'ast': R._fix(a), 'choice': [2], 'method': 'GET'} for a in rs], 'spell': len(rs) % 2, 'paths': ps})
+    ctx.count('fixed_grid_digit_runs_around_int_limit')
     # registered and removed again, exhaustively: every 3-subset of nine rules that share prefixes, each member removed in turn
     import itertools
     uni = [[L('/a')], [L('/a/b')], [L('/ab')], [L('/a/'), W('x')], [L('/a/'), W('x'), L('/c')], [L('/a/'), W('p', 'path'), L('/'), W('t'), L('a')], [L('/abc/d')],
